@@ -30,6 +30,9 @@ CASES = {
     'divmod_neg': [(0,), (1,), (1025,), (4096,)],
     'pow2_ops': [(0,), (3,), (-1,), (-2,), (10,)],
     'low_mask': [(0x2B, 3), (0x2B, 0), (0xFF, 8), (8, 3), (26, 4), (26, 2)],
+    'list_remove': [(1, 2, 3), (5, 5, 5), (0, 1, 0)],
+    'bool_xor': [(True, False), (True, True), (False, False)],
+    'str_truth': [(True,), (False,)],
 }
 
 
